@@ -1,5 +1,6 @@
 import Hyeong.Driver.NumOps
 import Hyeong.Model.Big
+import Hyeong.Model.NumL
 /-! Driver operations on big integers: `m.` = limb model (`HyB`), `s.` = spec (`Int`). -/
 namespace Drv
 open HyB
@@ -98,5 +99,27 @@ def sBigParse (base t : String) : String :=
   let n : Nat := vals.foldl (fun a d => a * b + d) 0
   if neg ∧ n = 0 then "?" else
   "ok " ++ probeI (if neg then -(n : Int) else n)
+
+/-! `l.` = `num.rs` literally over the limb model (`HyNL`); results are shown through their integer reading -/
+def decNumL (s : String) : HyNL.NumL :=
+  match s.splitOn ";" with
+  | [u, d] => HyNL.optimize ⟨decBigB u, decBigB d⟩
+  | _ => HyNL.nan
+
+def lprobe (r : HyNL.NumL) : String :=
+  s!"S={encText (HyN.display (HyNL.toNumI r))} P={b01 (HyNL.isPos r)} N={b01 (HyNL.isNan r)}"
+
+def lNum (op a b : String) : String :=
+  let x := decNumL a
+  let y := decNumL b
+  match op with
+  | "add" => lprobe (HyNL.add x y) ++ " IP=1"
+  | "mul" => lprobe (HyNL.mul x y) ++ " IP=1"
+  | "neg" => lprobe (HyNL.neg x) ++ " IP=1"
+  | "flip" => lprobe (HyNL.flip x)
+  | "floor" => s!"F={showBig (HyNL.floor x)}"
+  | "cmp" => s!"{ordStr (HyNL.cmp x y)} {b01 (HyNL.eqv x y)}"
+  | "id" => lprobe x
+  | _ => "BADOP"
 
 end Drv
